@@ -1,7 +1,188 @@
-(* C03 property theorems only: each closed by `exact <lemma>` with Print Assumptions beneath. *)
-From Coq Require Import String List Arith Bool ZArith.
-Require Import MV.Lib.Base MV.C03.Gen MV.C03.Model MV.C03.Proofs_Orient.
+(* C03 property theorems only: each closed by `exact <lemma>` with Print Assumptions beneath.
+   Vocabulary (Proofs_Main.v): tet_mesh cells = every cell is 4 distinct vertices; faces_of / edges_of = the completed
+   face / edge lists (mesh_data.py); tables cells = Run.build (the record the correspondence batches evaluate);
+   face / edge / cell = the vertex list of an element; conforming = a triangle of a cell lies in at most two cells.
+   Full / partial / refuted status is in each name and in the comment above it. *)
+From Coq Require Import String List Arith Bool ZArith Reals Permutation Sorted.
+Import ListNotations.
+Require Import MV.Lib.Base MV.C03.Gen MV.C03.GenR MV.C03.Model MV.C03.Run MV.C03.Proofs_Simplex MV.C03.Proofs_Incidence
+        MV.C03.Proofs_Incidence2 MV.C03.Proofs_Orient MV.C03.Proofs_OrientR MV.C03.Proofs_Maps MV.C03.Proofs_Ring
+        MV.C03.Proofs_Cache MV.C03.Proofs_Main.
+Local Open Scope nat_scope.
 
-Theorem C03_orientation_test_is_outward_Z : forall a b c d : vec, orient_test_Z a b c d = outward_Z a b c d.
-Proof. exact orient_test_iff_outward. Qed.
-Print Assumptions C03_orientation_test_is_outward_Z.
+(* FULL. Completion: every triangle of every cell is a face exactly once, every side of every face an edge exactly
+   once, every face is stored in the convention order of a cell that has it. *)
+Theorem C03_faces_and_edges_from_cells : forall cells, tet_mesh cells ->
+  faces_wf cells (faces_of cells) /\ edges_wf (faces_of cells) (edges_of cells)
+  /\ (forall F, In F (faces_of cells) -> exists C, In C cells /\ In F (tet_faces C)).
+Proof. exact faces_edges_from_cells. Qed.
+Print Assumptions C03_faces_and_edges_from_cells.
+
+(* FULL. Building the incidence tables raises nothing (no face_id miss) on any tetrahedral cell list. *)
+Theorem C03_incidence_tables_built_without_error : forall cells, tet_mesh cells -> t_ok (tables cells) = true.
+Proof. exact tables_ok. Qed.
+Print Assumptions C03_incidence_tables_built_without_error.
+
+(* FULL. face_to_cells(f) = the cells containing all three vertices of f, in increasing order. *)
+Theorem C03_incidence_face_to_cells : forall cells, tet_mesh cells -> forall f, f < length (faces_of cells) ->
+  F2C (t_f2c (tables cells)) f = filter (fun c => subsetb (face cells f) (cell cells c)) (seq 0 (length cells)).
+Proof. exact face_to_cells_is_brute_force. Qed.
+Print Assumptions C03_incidence_face_to_cells.
+
+(* FULL. cell_to_face(c) has 4 entries; the i-th is the face made of the vertices of c other than its i-th vertex. *)
+Theorem C03_incidence_cell_to_face : forall cells, tet_mesh cells -> forall c, c < length cells ->
+  exists l, C2F (t_c2f (tables cells)) c = l /\ length l = 4 /\
+    forall i, i < 4 ->
+      let f := nth i l 0 in
+      f < length (faces_of cells) /\ Permutation (face cells f) (rm i (cell cells c))
+      /\ incl (face cells f) (cell cells c) /\ ~ In (nth i (cell cells c) 0) (face cells f).
+Proof. exact cell_to_face_is_opposite_faces. Qed.
+Print Assumptions C03_incidence_cell_to_face.
+
+(* FULL (conforming meshes). cell_to_cell(c) = for i = 0..3 in order, the other cell containing the facet opposite
+   the i-th vertex, when there is one. *)
+Theorem C03_incidence_cell_to_cell : forall cells, tet_mesh cells -> conforming cells ->
+  exists t, t_c2c (tables cells) = Ok t /\
+    forall c, c < length cells ->
+      C2C t c = flat_map (fun i => filter (fun c2 => negb (c2 =? c) && subsetb (rm i (cell cells c)) (cell cells c2))
+                                          (seq 0 (length cells))) (seq 0 4).
+Proof. exact cell_to_cell_is_brute_force. Qed.
+Print Assumptions C03_incidence_cell_to_cell.
+
+(* FULL. vertex_to_cell(v) is, as a duplicate-free set, the cells having v. *)
+Theorem C03_incidence_vertex_to_cell : forall cells v c,
+  (In c (V2C cells v) <-> c < length cells /\ In v (cell cells c)) /\ NoDup (V2C cells v).
+Proof. exact vertex_to_cell_is_brute_force. Qed.
+Print Assumptions C03_incidence_vertex_to_cell.
+
+(* FULL (unsorted tables). edge_to_face(e) = the faces containing both end points, in increasing order. *)
+Theorem C03_incidence_edge_to_face : forall cells, tet_mesh cells -> forall e, e < length (edges_of cells) ->
+  nth e (t_e2f (tables cells)) [] = filter (fun f => subsetb (edge cells e) (face cells f)) (seq 0 (length (faces_of cells))).
+Proof. exact edge_to_face_is_brute_force. Qed.
+Print Assumptions C03_incidence_edge_to_face.
+
+(* FULL (unsorted tables). edge_to_cell(e) is, as a duplicate-free set, the cells containing both end points. *)
+Theorem C03_incidence_edge_to_cell : forall cells, tet_mesh cells -> forall e c, e < length (edges_of cells) ->
+  (In c (nth e (t_e2c (tables cells)) []) <-> c < length cells /\ incl (edge cells e) (cell cells c))
+  /\ NoDup (nth e (t_e2c (tables cells)) []).
+Proof. exact edge_to_cell_is_brute_force. Qed.
+Print Assumptions C03_incidence_edge_to_cell.
+
+(* FULL. Border faces = faces in exactly one cell, interior faces = faces in at least two; border vertices / edges =
+   those of the border faces. *)
+Theorem C03_border_classification : forall cells, tet_mesh cells ->
+  let bf := t_bf (tables cells) in
+  (forall f, In f bf <-> f < length (faces_of cells) /\ n_cells_of_face cells f = 1)
+  /\ (forall f, In f (interior_faces (faces_of cells) (t_f2c (tables cells))) <->
+                f < length (faces_of cells) /\ 2 <= n_cells_of_face cells f)
+  /\ (forall nv v, In v (boundary_vertices nv (faces_of cells) bf) <->
+                   v < nv /\ exists f, In f bf /\ In v (face cells f))
+  /\ (forall e, In e (boundary_edges (faces_of cells) (edges_of cells) bf) <->
+                e < length (edges_of cells) /\ exists f, In f bf /\ incl (edge cells e) (face cells f)).
+Proof. exact border_classification. Qed.
+Print Assumptions C03_border_classification.
+
+(* FULL. boundary_X ++ interior_X is a permutation of all ids of X, for faces, vertices and edges. *)
+Theorem C03_border_partitions_exact : forall cells nv,
+  let bf := t_bf (tables cells) in
+  Permutation (bf ++ interior_faces (faces_of cells) (t_f2c (tables cells))) (seq 0 (length (faces_of cells)))
+  /\ Permutation (boundary_vertices nv (faces_of cells) bf ++ interior_vertices nv (faces_of cells) bf) (seq 0 nv)
+  /\ Permutation (boundary_edges (faces_of cells) (edges_of cells) bf ++ interior_edges (faces_of cells) (edges_of cells) bf)
+                 (seq 0 (length (edges_of cells))).
+Proof. exact border_partitions. Qed.
+Print Assumptions C03_border_partitions_exact.
+
+(* FULL, all real coordinates. The orientation test of _extract_surface_boundary (with geometry.det_3x3, both
+   regenerated from the source) holds iff the right-hand normal of (A,B,C) points away from D. *)
+Theorem C03_orientation_test_iff_outward_R : forall a b c d : vecR, orient_test_R a b c d <-> outward_R a b c d.
+Proof. exact orient_test_R_iff_outward. Qed.
+Print Assumptions C03_orientation_test_iff_outward_R.
+
+(* FULL, all real coordinates. Both branches of the test emit an outward triangle for a non-degenerate cell. *)
+Theorem C03_orientation_branches_outward_R : forall a b c d : vecR, (triple_R a b c d <> 0)%R ->
+  (orient_test_R a b c d -> outward_R a b c d) /\ (~ orient_test_R a b c d -> outward_R a c b d).
+Proof. exact orient_branches_outward_R. Qed.
+Print Assumptions C03_orientation_branches_outward_R.
+
+(* FULL (lattice coordinates, the executable model). A face emitted by _BoundaryConnectivity is the border face's three
+   vertices, renumbered by m2b, in an order that is outward w.r.t. the fourth vertex of its cell. *)
+Theorem C03_boundary_connectivity_faces_outward : forall cells faces pos f2c vs iF T,
+  bc_face cells faces pos f2c vs iF = Ok T ->
+  exists a b c d iC p q r,
+    nth iF faces [] = [a; b; c] /\ hd_error (F2C f2c iF) = Some iC
+    /\ hd_error (others (nth iC cells []) [a; b; c]) = Some d
+    /\ map (b2m vs) T = [Some p; Some q; Some r]
+    /\ Permutation [p; q; r] [a; b; c]
+    /\ (det_3x3 (vsub3 (pos a) (pos d)) (vsub3 (pos b) (pos d)) (vsub3 (pos c) (pos d)) <> 0%Z ->
+        outward_Z (pos p) (pos q) (pos r) (pos d) = true).
+Proof. exact bc_face_outward. Qed.
+Print Assumptions C03_boundary_connectivity_faces_outward.
+
+(* FULL. Standalone extractor: a stored face is the convention-order face of a cell containing it (its only cell when it
+   is a border face), opposite that cell's i-th vertex, and is outward whenever that cell is positive in mouette's own
+   determinant det(pA-pD,pB-pD,pC-pD) of the cell (A,B,C,D). *)
+Theorem C03_standalone_faces_outward_when_positive : forall cells, tet_mesh cells -> forall pos f,
+  f < length (faces_of cells) ->
+  exists C i, In C cells /\ i < 4 /\ face cells f = nth i (tet_faces C) [] /\ incl (face cells f) C
+              /\ ~ In (nth i C 0) (face cells f)
+              /\ (cell_positive pos C -> face_outward pos (face cells f) (nth i C 0)).
+Proof. exact standalone_faces_outward. Qed.
+Print Assumptions C03_standalone_faces_outward_when_positive.
+
+(* FULL. Vertex index maps: for every duplicate-free enumeration of the border vertices m2b and b2m are mutually
+   inverse; the same holds of the face maps (an enumeration of boundary_faces) read as dicts. *)
+Theorem C03_vertex_and_face_maps_inverse : forall l : list nat, NoDup l ->
+  (forall v i, m2b l v = Some i <-> b2m l i = Some v)
+  /\ (forall v i, dict_get (combine l (seq 0 (length l))) v = Some i <-> dict_get (combine (seq 0 (length l)) l) i = Some v)
+  /\ (forall v i, dict_get (combine (seq 0 (length l)) l) i = Some v <-> b2m l i = Some v).
+Proof.
+  exact (fun l ND => conj (fun v i => vertex_maps_inverse l v i ND)
+                          (conj (fun v i => enumeration_maps_inverse l v i ND) (fun v i => dict_get_enum l i v ND))).
+Qed.
+Print Assumptions C03_vertex_and_face_maps_inverse.
+
+(* PARTIAL. Edge index maps: m2b_edge (keys = the border edges) and b2m_edge are mutually inverse dicts.
+   Missing: that b2m_edge is defined on EVERY edge of the surface (only tested). *)
+Theorem C03_edge_maps_inverse_partial : forall edges bedges vs be m,
+  NoDup (map key edges) -> NoDup be -> bc_edge_map edges bedges vs be = Ok m ->
+  map fst m = be /\ forall e b, dict_get m e = Some b <-> dict_get (map swap m) b = Some e.
+Proof. exact edge_maps_inverse. Qed.
+Print Assumptions C03_edge_maps_inverse_partial.
+
+(* FULL (cache discipline). Whatever the order of accessor calls on a fresh object, no accessor tests an attribute
+   that does not exist; guard tables regenerated from the source. Tables are pure functions of the mesh in the model. *)
+Theorem C03_query_order_no_attribute_error :
+  (forall qs, cache_run conn_guards conn_assigns conn_init_fields qs = true)
+  /\ (forall qs, cache_run mesh_guards mesh_assigns mesh_init_fields qs = true).
+Proof. exact no_attribute_error_any_order. Qed.
+Print Assumptions C03_query_order_no_attribute_error.
+
+(* PARTIAL. Rotational order around an edge: both pivot walks terminate within the fuel |cells|+1, the cells each of
+   them keys are pairwise distinct and consecutive ones share a face containing the edge.
+   Missing (tested only): the final sort by walk keys yields rev(walk2) ++ start :: walk1 and covers all cells of the
+   edge when these are face-connected; faces interleave. *)
+Theorem C03_edge_ring_partial : forall cells, tet_mesh cells -> forall e start A B p1 p2,
+  edge cells e = [A; B] -> others (cell cells start) [A; B] = [p1; p2] -> start < length cells ->
+  let f2c := t_f2c (tables cells) in
+  let fuel := S (length cells) in
+  walk cells (faces_of cells) fuel f2c A B [start] start p1 <> Fuel
+  /\ forall cs1 fs1, walk cells (faces_of cells) fuel f2c A B [start] start p1 = Ok (cs1, fs1) ->
+     Sorted (adjacent_around cells (faces_of cells) A B) (start :: cs1) /\ NoDup (start :: cs1)
+     /\ length fs1 = S (length cs1)
+     /\ walk cells (faces_of cells) fuel f2c A B (cs1 ++ [start]) start p2 <> Fuel
+     /\ forall cs2 fs2, walk cells (faces_of cells) fuel f2c A B (cs1 ++ [start]) start p2 = Ok (cs2, fs2) ->
+        Sorted (adjacent_around cells (faces_of cells) A B) (start :: cs2) /\ NoDup (cs2 ++ start :: cs1)
+        /\ length fs2 = S (length cs2).
+Proof. exact edge_walks. Qed.
+Print Assumptions C03_edge_ring_partial.
+
+(* REFUTED (known finding edge-nonmanifold/sort-KeyError). "On every conforming tetrahedral mesh the rotational sort
+   succeeds" is false: two tetrahedra sharing only an edge; every start cell raises. *)
+Theorem C03_edge_ring_nonmanifold_refuted :
+  exists cells, tet_mesh cells /\ conforming cells /\
+    exists e, e < length (edges_of cells) /\ nth e (t_e2c (tables cells)) [] <> [] /\
+      forall start, In start (nth e (t_e2c (tables cells)) []) ->
+        sorted_edge cells (faces_of cells) (edges_of cells) (t_f2c (tables cells))
+                    (nth e (t_e2c (tables cells)) []) (nth e (t_e2f (tables cells)) []) e start = Exn.
+Proof. exact edge_ring_nonmanifold_refuted. Qed.
+Print Assumptions C03_edge_ring_nonmanifold_refuted.
